@@ -30,12 +30,23 @@ type Scenario struct {
 	QMin   int         `json:"qname_min_level"`
 	IPv6   bool        `json:"ipv6access"`
 
+	// RootTTL is the TTL of the root zone's own records (DNSKEY, NS, SOA):
+	// 3600, or 172800 as in the real root. Anything the resolver validates
+	// with a cached root-signed record is additionally bounded by that
+	// record's lifetime, which can hide the lease; the long value keeps the
+	// delegation lease the only bound.
+	RootTTL uint32 `json:"root_ttl"`
 	LongTTL uint32 `json:"long_ttl"` // TTL of the child's ordinary answers
 	HotTTL  uint32 `json:"hot_ttl"`  // TTL of the names kept hot (sized against the lease so prefetch fires inside it)
 
 	SelfReferral bool `json:"self_referral"` // old child answers *.sr.<apex> with a referral to itself (huge TTL)
 	HugeApexNS   bool `json:"huge_apex_ns"`  // old child publishes a different apex NS set with a 2 d TTL and adds it to every answer
 	NSChange     bool `json:"ns_change"`     // old child changes its apex NS set again at withdrawal time
+	// Glueless: the victim has two servers and the parent publishes glue for
+	// the first NS host only, so sdns has to look the second one up through a
+	// provisional delegation entry (Resolver.lookupV4Nss). The stored leases
+	// are inspected while that lookup is in flight.
+	Glueless bool `json:"glueless_second_ns"`
 
 	WithdrawAt string `json:"withdraw_at"` // "early" | "mid" | "late" | "renewed"
 	Rounds     int    `json:"rounds"`
@@ -117,7 +128,11 @@ func genScenario(rng *rand.Rand, seed uint64, index int) *Scenario {
 		sc.Mode = "withdraw"
 	}
 	sc.QMin = []int{0, 3, 3, 5}[rng.IntN(4)]
-	sc.IPv6 = rng.IntN(3) == 0
+	sc.IPv6 = rng.IntN(5) == 0
+	sc.RootTTL = []uint32{3600, 172800, 172800}[rng.IntN(3)]
+	if index%6 == 3 {
+		sc.RootTTL = 172800
+	}
 	lease := leaseOf(*v)
 	for i := 0; i < sc.Victim-1; i++ {
 		if a := leaseOf(sc.Levels[i]); a < lease {
@@ -136,6 +151,10 @@ func genScenario(rng *rand.Rand, seed uint64, index int) *Scenario {
 	sc.SelfReferral = rng.IntN(2) == 0
 	sc.HugeApexNS = rng.IntN(3) != 0
 	sc.NSChange = rng.IntN(2) == 0
+	sc.Glueless = rng.IntN(4) == 0
+	if sc.Glueless {
+		v.Servers = 2
+	}
 	sc.WithdrawAt = []string{"early", "mid", "late", "renewed"}[rng.IntN(4)]
 	sc.Rounds = 2 + rng.IntN(2)
 	return sc
@@ -181,7 +200,7 @@ func bucket(ttl uint32) string {
 
 func (sc *Scenario) String() string {
 	var b strings.Builder
-	fmt.Fprintf(&b, "#%d %s victim=L%d qmin=%d v6=%v hot=%d long=%d sr=%v huge=%v nschg=%v at=%s levels:", sc.Index, sc.Mode, sc.Victim, sc.QMin, sc.IPv6, sc.HotTTL, sc.LongTTL, sc.SelfReferral, sc.HugeApexNS, sc.NSChange, sc.WithdrawAt)
+	fmt.Fprintf(&b, "#%d %s victim=L%d qmin=%d v6=%v rootttl=%d hot=%d long=%d sr=%v huge=%v nschg=%v glueless=%v at=%s levels:", sc.Index, sc.Mode, sc.Victim, sc.QMin, sc.IPv6, sc.RootTTL, sc.HotTTL, sc.LongTTL, sc.SelfReferral, sc.HugeApexNS, sc.NSChange, sc.Glueless, sc.WithdrawAt)
 	for i, l := range sc.Levels {
 		fmt.Fprintf(&b, " L%d[%s signed=%v secure=%v ns=%d ds=%d srv=%d]", i+1, l.Label, l.Signed, l.Secure, l.NSTTL, l.DSTTL, l.Servers)
 	}
